@@ -203,7 +203,10 @@ def alias_is_stable(ctx, f: FunctionInfo, defstmt, use_node: ast.AST, value: ast
         if st is use_st:
             # the use statement itself re-binds what the alias reads (`self._n = row + 1`): the right-hand side is evaluated first
             continue
-        if cfg.reachable_after(defstmt, st) and cfg.reachable_after(st, use_st):
+        # a re-binding matters only if it can happen after the definition and reach the use WITHOUT passing the definition
+        # again (inside a loop the alias is refreshed in every iteration)
+        if cfg.reachable_avoiding(defstmt, st, lambda n: False) is not None \
+                and cfg.reachable_avoiding(st, use_st, lambda n: n is defstmt) is not None:
             return False
     return True
 
